@@ -352,13 +352,20 @@ fn impl_diff(a: &Map, b: &Map, variant: u8) -> Map {
     a.difference(b, |k, l, r| diff_fn(variant, k, l, r))
 }
 
-/// ceil(log_{4/3}(n+1)) computed in integers: smallest h with (4/3)^h >= n+1.
+/// The balance parameter the repository documents (`const DELTA` in wbtree/map.rs, read from the
+/// source by the driver and passed in VERIF_WB_DELTA; 3 at the time of writing).
+fn delta() -> usize {
+    std::env::var("VERIF_WB_DELTA").ok().and_then(|s| s.parse().ok()).filter(|d| *d >= 2).unwrap_or(3)
+}
+
+/// ceil(log_{(D+1)/D}(n+1)) computed in integers: smallest h with ((D+1)/D)^h >= n+1. A node whose
+/// children's weights are within a factor D of each other has weight >= (D+1)/D times each child's.
 fn height_bound(n: usize) -> usize {
+    let d = delta() as f64;
     let mut h = 0usize;
-    let (mut num, mut den) = (1u128, 1u128);
-    while num < (n as u128 + 1) * den {
-        num *= 4;
-        den *= 3;
+    let mut x = 1.0f64;
+    while x < (n as f64 + 1.0) {
+        x *= (d + 1.0) / d;
         h += 1;
     }
     h
@@ -385,7 +392,7 @@ pub fn check_shape(shape: &Shape) -> Result<(Vec<u32>, usize), String> {
         }
         if ls + rs >= 2 {
             let (lw, rw) = (ls + 1, rs + 1);
-            if rw > 3 * lw || lw > 3 * rw {
+            if rw > delta() * lw || lw > delta() * rw {
                 return Err(format!(
                     "weight balance violated at key {key}: left size {ls}, right size {rs}"
                 ));
